@@ -457,7 +457,31 @@ type Ctx struct {
 
 	viols  []string
 	counts map[string]int
+	notes  []string
 	done   bool
+}
+
+// Note records something which is neither a comparison nor a violation (a test that could not be
+// set up); the harness prints notes on the run line.
+func (c *Ctx) Note(s string) {
+	if len(c.notes) < 8 {
+		c.notes = append(c.notes, clean(s))
+	}
+}
+
+// Merge adds the results of another context.
+func (c *Ctx) Merge(o *Ctx) {
+	c.Checks += o.Checks
+	for k, n := range o.counts {
+		c.counts[k] += n
+	}
+	for _, v := range o.viols {
+		if len(c.viols) < 40 {
+			c.viols = append(c.viols, v)
+		}
+	}
+	c.notes = append(c.notes, o.notes...)
+	o.Checks, o.counts, o.viols, o.notes = 0, map[string]int{}, nil, nil
 }
 
 // NewCtx returns the context of one package (name is "<bundle>/<package>").
@@ -696,6 +720,9 @@ func (c *Ctx) Finish() {
 	}
 	for _, v := range c.viols {
 		fmt.Fprintf(&sb, "viol %s\n", v)
+	}
+	for _, v := range c.notes {
+		fmt.Fprintf(&sb, "note %s\n", v)
 	}
 	sb.WriteString("done\n")
 	dir := os.Getenv("C05_OUT")
